@@ -1,8 +1,823 @@
-(* Proofs/Helpers.v — laws of the generated helper families (C12). *)
+(* Proofs/Helpers.v — laws of the generated helper families (C12), for every
+   descriptor, every packet and every value: a storage layer (what Set/Add/Del do
+   to the values a helper sees, and to those every other helper sees) and a codec
+   layer (decoding what was encoded gives the value back, with its tag). *)
 From Radius Require Import Base.Bytes Base.Guard Base.Res Gen.Consts Model.Attrs Model.Packet
-  Model.Codecs Model.Passwords Model.Vendor Model.Helpers.
+  Model.Codecs Model.Passwords Model.Vendor Model.Helpers
+  Spec.C04 Spec.C09 Spec.C10 Spec.C11 Proofs.Guards Proofs.AttrsList Proofs.Codecs Proofs.Prefix
+  Proofs.UserPassword Proofs.TunnelPassword Proofs.Vendor Spec.C01 Proofs.AttrsWire Proofs.PacketWire.
 From Coq Require Import ZifyBool ZifyNat ZifyN.
 Open Scope nat_scope.
 
 Lemma h_raw_attrs d p p' : pattrs p = pattrs p' -> h_raw d p = h_raw d p'.
 Proof. unfold h_raw. intros ->. reflexivity. Qed.
+
+(* ---- storage layer, plain attributes ---- *)
+Definition vals (k : Z) (l : attrs) : list bytes := map aval (filter (is_key k) l).
+
+Lemma filter_is_key_del k l : filter (is_key k) (spec_del k l) = [].
+Proof.
+  unfold spec_del. induction l as [|a l IH]; [reflexivity|]. cbn [filter]. unfold not_key at 1.
+  destruct (atype a =? k)%Z eqn:E; cbn [negb]; [exact IH|]. cbn [filter]. unfold is_key at 1. rewrite E. exact IH.
+Qed.
+
+Lemma vals_set k v l : vals k (spec_set k v l) = [v].
+Proof.
+  unfold vals. induction l as [|a l IH]; cbn [spec_set].
+  - cbn [filter]. unfold is_key. cbn [atype]. rewrite Z.eqb_refl. reflexivity.
+  - destruct (is_key k a) eqn:E.
+    + cbn [filter]. unfold is_key at 1. cbn [atype]. rewrite Z.eqb_refl, filter_is_key_del. reflexivity.
+    + cbn [filter]. rewrite E. exact IH.
+Qed.
+Lemma vals_add k v l : vals k (spec_add k v l) = vals k l ++ [v].
+Proof.
+  unfold vals, spec_add. rewrite filter_app, map_app. cbn [filter]. unfold is_key at 2. cbn [atype].
+  rewrite Z.eqb_refl. reflexivity.
+Qed.
+Lemma vals_del k l : vals k (spec_del k l) = [].
+Proof. unfold vals. rewrite filter_is_key_del. reflexivity. Qed.
+
+Lemma vals_set_other j k v l : j <> k -> vals j (spec_set k v l) = vals j l.
+Proof.
+  intros Hne. unfold vals. f_equal.
+  rewrite <- (filter_is_key_of_not j k (spec_set k v l) Hne), spec_set_others.
+  apply filter_is_key_of_not, Hne.
+Qed.
+Lemma vals_add_other j k v l : j <> k -> vals j (spec_add k v l) = vals j l.
+Proof.
+  intros Hne. unfold vals. f_equal.
+  rewrite <- (filter_is_key_of_not j k (spec_add k v l) Hne), spec_add_others.
+  apply filter_is_key_of_not, Hne.
+Qed.
+Lemma vals_del_other j k l : j <> k -> vals j (spec_del k l) = vals j l.
+Proof. intros Hne. unfold vals, spec_del. f_equal. apply filter_is_key_of_not, Hne. Qed.
+
+(* the vendor helpers only look at Vendor-Specific attributes *)
+Lemma gets_vendor_only_vsa vid typ l : gets_vendor vid typ l = gets_vendor vid typ (filter (is_key VSA_TYPE) l).
+Proof.
+  induction l as [|a l IH]; [reflexivity|]. cbn [filter]. unfold is_key at 1.
+  destruct (atype a =? VSA_TYPE)%Z eqn:E.
+  - rewrite !gets_vendor_cons, IH. reflexivity.
+  - rewrite gets_vendor_cons, IH. unfold gets_one, vsa_payload. rewrite E. reflexivity.
+Qed.
+Lemma gets_vendor_same_vsa vid typ l l' : filter (is_key VSA_TYPE) l = filter (is_key VSA_TYPE) l' ->
+  gets_vendor vid typ l = gets_vendor vid typ l'.
+Proof. intros E. rewrite (gets_vendor_only_vsa vid typ l), (gets_vendor_only_vsa vid typ l'), E. reflexivity. Qed.
+
+(* ... and leave every other attribute where it is *)
+Lemma view_not_vsa vid typ a : (atype a =? VSA_TYPE)%Z = false -> view vid typ a = [a].
+Proof. intros E. unfold view, vsa_payload. rewrite E. reflexivity. Qed.
+Lemma view_is_vsa vid typ a x : In x (view vid typ a) -> (atype a =? VSA_TYPE)%Z = true -> (atype x =? VSA_TYPE)%Z = true.
+Proof.
+  unfold view. destruct (vsa_payload vid a) eqn:E.
+  - destruct (snd (strip typ b)); [intros []|]. intros [<-|[]] H. exact H.
+  - intros [<-|[]] H. exact H.
+Qed.
+Lemma vals_view vid typ k l : k <> VSA_TYPE -> vals k (flat_map (view vid typ) l) = vals k l.
+Proof.
+  intros Hne. unfold vals. f_equal. induction l as [|a l IH]; [reflexivity|].
+  cbn [flat_map]. rewrite filter_app, IH. cbn [filter].
+  destruct (atype a =? VSA_TYPE)%Z eqn:E.
+  - assert (Hk : is_key k a = false) by (unfold is_key; lia). rewrite Hk.
+    assert (Hn : filter (is_key k) (view vid typ a) = []).
+    { pose proof (view_is_vsa vid typ a) as Hv. induction (view vid typ a) as [|x xs IHx]; [reflexivity|].
+      cbn [filter]. assert (Hx : is_key k x = false).
+      { specialize (Hv x (or_introl eq_refl) E). unfold is_key. lia. }
+      rewrite Hx. apply IHx. intros y Hy. apply Hv. right. exact Hy. }
+    rewrite Hn. reflexivity.
+  - rewrite (view_not_vsa vid typ a E). cbn [filter]. destruct (is_key k a); reflexivity.
+Qed.
+
+(* ---- storage layer, helpers ---- *)
+Definition raw_of (d : hdesc) (l : attrs) : list bytes :=
+  match h_vendor d with
+  | Some vid => gets_vendor vid (Z.to_N (h_type d)) l
+  | None => vals (h_type d) l
+  end.
+Lemma h_raw_eq d p : h_raw d p = raw_of d (pattrs p).
+Proof. reflexivity. Qed.
+
+(* two helpers that do not address the same values *)
+Definition distinct (d d' : hdesc) : Prop :=
+  match h_vendor d, h_vendor d' with
+  | None, None => h_type d <> h_type d'
+  | Some v, Some v' => (v', Z.to_N (h_type d')) <> (v, Z.to_N (h_type d))
+  | None, Some _ => h_type d <> VSA_TYPE
+  | Some _, None => h_type d' <> VSA_TYPE
+  end.
+Definition is_concat (d : hdesc) : bool := match h_kind d with KConcat => true | _ => false end.
+(* what the generator guarantees of a descriptor: vendor ids are uint32 constants,
+   and it refuses concat for vendor attributes *)
+Definition wfd (d : hdesc) : Prop :=
+  match h_vendor d with Some vid => (vid < 4294967296)%N /\ is_concat d = false | None => True end.
+
+Definition same_header (p p' : packet) : Prop :=
+  code p' = code p /\ ident p' = ident p /\ auth p' = auth p /\ secret p' = secret p.
+
+(* the attribute list after a successful store of the wire value [a] *)
+Definition stored_set (d : hdesc) (a : bytes) (l : attrs) : res attrs :=
+  if is_concat d then Ok (spec_del (h_type d) l ++ map (mkavp (h_type d)) (chunks (S (length a)) a))
+  else match h_vendor d with
+       | Some vid => set_vendor vid (Z.to_N (h_type d)) a l
+       | None => Ok (spec_set (h_type d) a l)
+       end.
+Definition stored_add (d : hdesc) (a : bytes) (l : attrs) : res attrs :=
+  match h_vendor d with
+  | Some vid => add_vendor vid (Z.to_N (h_type d)) a l
+  | None => Ok (spec_add (h_type d) a l)
+  end.
+Definition stored_del (d : hdesc) (l : attrs) : attrs :=
+  match h_vendor d with
+  | Some vid => del_vendor vid (Z.to_N (h_type d)) l
+  | None => spec_del (h_type d) l
+  end.
+
+Section Store.
+Variable Hs : bytes -> bytes.
+
+Lemma h_set_inv d p salt tag v p' : h_set Hs d p salt tag v = Ok p' ->
+  exists a, h_encode Hs d p salt tag v = Ok a /\ stored_set d a (pattrs p) = Ok (pattrs p') /\ same_header p p'.
+Proof.
+  unfold h_set, stored_set, is_concat. destruct (h_encode Hs d p salt tag v) as [a|e| |]; cbn [bind]; try discriminate.
+  intros H. exists a. split; [reflexivity|].
+  destruct (h_kind d); destruct (h_vendor d) as [vid|];
+    rewrite ?del_spec, ?set_spec in H; cbn [bind] in H;
+    try (destruct (set_vendor vid (Z.to_N (h_type d)) a (pattrs p)) as [l'|e| |]; cbn [bind] in H; try discriminate);
+    apply Ok_inj in H; subst p'; cbn [pattrs code ident auth secret]; unfold same_header; cbn [code ident auth secret]; auto.
+Qed.
+
+Lemma h_add_inv d p salt tag v p' : h_add Hs d p salt tag v = Ok p' ->
+  exists a, h_encode Hs d p salt tag v = Ok a /\ stored_add d a (pattrs p) = Ok (pattrs p') /\ same_header p p'.
+Proof.
+  unfold h_add, stored_add. destruct (h_encode Hs d p salt tag v) as [a|e| |]; cbn [bind]; try discriminate.
+  intros H. exists a. split; [reflexivity|].
+  destruct (h_vendor d) as [vid|].
+  - destruct (add_vendor vid (Z.to_N (h_type d)) a (pattrs p)) as [l'|e| |]; cbn [bind] in H; try discriminate.
+    apply Ok_inj in H; subst p'. unfold same_header; cbn [pattrs code ident auth secret]; auto.
+  - rewrite add_spec in H. apply Ok_inj in H; subst p'. unfold same_header; cbn [pattrs code ident auth secret]; auto.
+Qed.
+
+Lemma h_del_inv d p : exists p', h_del d p = Ok p' /\ pattrs p' = stored_del d (pattrs p) /\ same_header p p'.
+Proof.
+  unfold h_del, stored_del. destruct (h_vendor d) as [vid|].
+  - eexists. split; [reflexivity|]. unfold same_header; cbn [pattrs code ident auth secret]; auto.
+  - rewrite del_spec. cbn [bind]. eexists. split; [reflexivity|]. unfold same_header; cbn [pattrs code ident auth secret]; auto.
+Qed.
+End Store.
+
+Lemma concat_chunks : forall f v, length v <= f -> concat (chunks f v) = v.
+Proof.
+  induction f as [|f IH]; intros v Hl.
+  - destruct v; [reflexivity|cbn [length] in Hl; lia].
+  - destruct v as [|x v']; [reflexivity|]. cbn [chunks concat]. rewrite IH.
+    + apply firstn_skipn.
+    + rewrite skipn_length. cbn [length] in *. lia.
+Qed.
+
+Lemma chunks_bounds : forall f v c, In c (chunks f v) -> 1 <= length c <= 253.
+Proof.
+  induction f as [|f IH]; intros v c Hc; [destruct Hc|].
+  destruct v as [|x v']; [destruct Hc|]. cbn [chunks] in Hc. destruct Hc as [<-|Hc]; [|eapply IH; exact Hc].
+  rewrite firstn_length. cbn [length]. lia.
+Qed.
+
+Lemma filter_is_key_mk k j l : j <> k -> filter (is_key j) (map (mkavp k) l) = [].
+Proof.
+  intros Hne. induction l as [|c l IH]; [reflexivity|]. cbn [map filter]. unfold is_key at 1. cbn [atype].
+  destruct (k =? j)%Z eqn:E; [lia|exact IH].
+Qed.
+Lemma vals_mk k l : vals k (map (mkavp k) l) = l.
+Proof.
+  unfold vals. induction l as [|c l IH]; [reflexivity|]. cbn [map filter]. unfold is_key at 1. cbn [atype].
+  rewrite Z.eqb_refl. cbn [map aval]. rewrite IH. reflexivity.
+Qed.
+
+Lemma filter_key_set_other j k v l : j <> k -> filter (is_key j) (spec_set k v l) = filter (is_key j) l.
+Proof.
+  intros Hne. rewrite <- (filter_is_key_of_not j k (spec_set k v l) Hne), spec_set_others.
+  apply filter_is_key_of_not, Hne.
+Qed.
+Lemma filter_key_add_other j k v l : j <> k -> filter (is_key j) (spec_add k v l) = filter (is_key j) l.
+Proof.
+  intros Hne. rewrite <- (filter_is_key_of_not j k (spec_add k v l) Hne), spec_add_others.
+  apply filter_is_key_of_not, Hne.
+Qed.
+
+(* Set: the helper then sees exactly the stored value (the chunks of it for concat) ... *)
+Theorem stored_set_raw d a l l' : wfd d -> stored_set d a l = Ok l' ->
+  raw_of d l' = if is_concat d then chunks (S (length a)) a else [a].
+Proof.
+  unfold stored_set, raw_of, wfd. intros Hw. destruct (h_vendor d) as [vid|] eqn:Ev.
+  - destruct Hw as [Hv Hc]. rewrite Hc. intros H.
+    rewrite (set_vendor_gets vid _ a l l' Hv vid _ H), !N.eqb_refl. reflexivity.
+  - destruct (is_concat d); intros H; apply Ok_inj in H; subst l'.
+    + unfold vals. rewrite filter_app, map_app, filter_is_key_del. cbn [map app]. apply vals_mk.
+    + apply vals_set.
+Qed.
+
+(* ... Add: what it saw before, then the new value ... *)
+Theorem stored_add_raw d a l l' : wfd d -> stored_add d a l = Ok l' -> raw_of d l' = raw_of d l ++ [a].
+Proof.
+  unfold stored_add, raw_of, wfd. intros Hw. destruct (h_vendor d) as [vid|] eqn:Ev.
+  - destruct Hw as [Hv Hc]. intros H. rewrite (add_vendor_gets vid _ a l l' Hv vid _ H), !N.eqb_refl. reflexivity.
+  - intros H; apply Ok_inj in H; subst l'. apply vals_add.
+Qed.
+
+(* ... Del: nothing *)
+Theorem stored_del_raw d l : raw_of d (stored_del d l) = [].
+Proof.
+  unfold stored_del, raw_of. destruct (h_vendor d) as [vid|].
+  - apply del_vendor_removes_all.
+  - apply vals_del.
+Qed.
+
+(* non-interference: a helper addressing other values sees no difference *)
+Lemma vals_through_view vid typ k l l' : k <> VSA_TYPE ->
+  flat_map (view vid typ) l' = flat_map (view vid typ) l -> vals k l' = vals k l.
+Proof. intros Hk E. rewrite <- (vals_view vid typ k l' Hk), E. apply vals_view, Hk. Qed.
+
+Theorem stored_set_other d d' a l l' : wfd d -> distinct d d' -> stored_set d a l = Ok l' -> raw_of d' l' = raw_of d' l.
+Proof.
+  unfold stored_set, raw_of, wfd, distinct. intros Hw Hd.
+  destruct (h_vendor d) as [vid|] eqn:Ev; destruct (h_vendor d') as [vid'|] eqn:Ev'.
+  - destruct Hw as [Hv Hc]. rewrite Hc. intros H. rewrite (set_vendor_gets vid _ a l l' Hv vid' _ H).
+    destruct ((vid' =? vid)%N && (Z.to_N (h_type d') =? Z.to_N (h_type d))%N) eqn:E; [|reflexivity].
+    exfalso. apply Hd. f_equal; lia.
+  - destruct Hw as [Hv Hc]. rewrite Hc. intros H.
+    apply (vals_through_view vid (Z.to_N (h_type d))); [exact Hd|]. exact (set_vendor_view vid _ a l l' Hv H).
+  - destruct (is_concat d); intros H; apply Ok_inj in H; subst l'; apply gets_vendor_same_vsa.
+    + rewrite filter_app, (filter_is_key_mk (h_type d) VSA_TYPE) by congruence. rewrite app_nil_r.
+      unfold spec_del. apply filter_is_key_of_not. congruence.
+    + apply filter_key_set_other. congruence.
+  - destruct (is_concat d); intros H; apply Ok_inj in H; subst l'.
+    + unfold vals. rewrite filter_app, (filter_is_key_mk (h_type d) (h_type d')) by congruence. rewrite app_nil_r.
+      f_equal. unfold spec_del. apply filter_is_key_of_not. congruence.
+    + apply vals_set_other. congruence.
+Qed.
+
+Theorem stored_add_other d d' a l l' : wfd d -> distinct d d' -> stored_add d a l = Ok l' -> raw_of d' l' = raw_of d' l.
+Proof.
+  unfold stored_add, raw_of, wfd, distinct. intros Hw Hd.
+  destruct (h_vendor d) as [vid|] eqn:Ev; destruct (h_vendor d') as [vid'|] eqn:Ev'.
+  - destruct Hw as [Hv Hc]. intros H. rewrite (add_vendor_gets vid _ a l l' Hv vid' _ H).
+    destruct ((vid' =? vid)%N && (Z.to_N (h_type d') =? Z.to_N (h_type d))%N) eqn:E; [|apply app_nil_r].
+    exfalso. apply Hd. f_equal; lia.
+  - destruct Hw as [Hv Hc]. intros H.
+    apply (vals_through_view vid (Z.to_N (h_type d))); [exact Hd|]. exact (add_vendor_view vid _ a l l' Hv H).
+  - intros H; apply Ok_inj in H; subst l'; apply gets_vendor_same_vsa. apply filter_key_add_other. congruence.
+  - intros H; apply Ok_inj in H; subst l'. apply vals_add_other. congruence.
+Qed.
+
+Theorem stored_del_other d d' l : distinct d d' -> raw_of d' (stored_del d l) = raw_of d' l.
+Proof.
+  unfold stored_del, raw_of, distinct. intros Hd.
+  destruct (h_vendor d) as [vid|] eqn:Ev; destruct (h_vendor d') as [vid'|] eqn:Ev'.
+  - apply del_vendor_others_values. exact Hd.
+  - apply (vals_through_view vid (Z.to_N (h_type d))); [exact Hd|]. apply del_vendor_view.
+  - apply gets_vendor_same_vsa. unfold spec_del. apply filter_is_key_of_not. congruence.
+  - apply vals_del_other. congruence.
+Qed.
+
+(* ---- codec layer: decoding what was encoded ---- *)
+Lemma apply_mask_ok ip : forall ones, bytes_ok ip -> bytes_ok (apply_mask ip ones).
+Proof.
+  induction ip as [|b r IH]; intros ones Hb; [constructor|]. inversion Hb as [|? ? Hb0 Hr]; subst.
+  cbn [apply_mask]. destruct (8 <=? ones).
+  - constructor; [exact Hb0|apply IH, Hr].
+  - constructor; [|apply IH, Hr]. unfold clear_low, byte_ok in *. lia.
+Qed.
+
+Lemma be_enc4_small u : (u < 16777216)%N -> 0%N :: skipn 1 (be_enc 4 u) = be_enc 4 u.
+Proof.
+  intros Hu. unfold be_enc. cbn [app skipn]. f_equal.
+  assert (E : (u / 256 / 256 / 256 = 0)%N).
+  { rewrite !N.div_div by lia. apply N.div_small. lia. }
+  rewrite E. reflexivity.
+Qed.
+
+Lemma match_same {A B} (l : list A) (b : B) : match l with [] => b | _ :: _ => b end = b.
+Proof. destruct l; reflexivity. Qed.
+
+Section Codec.
+Variable Hs : bytes -> bytes.
+Hypothesis Hs_len : forall x, length (Hs x) = 16.
+
+Lemma forced_salt_ok salt : length salt = 2 -> salt_ok (forced_salt salt) = true.
+Proof.
+  destruct salt as [|s0 [|s1 [|? ?]]]; try discriminate. intros _. unfold forced_salt, salt_ok.
+  assert (H : (128 <= N.lor s0 128 mod 256)%N).
+  { assert (Hb : N.testbit (N.lor s0 128 mod 256) 7 = true).
+    { change 256%N with (2 ^ 8)%N. rewrite N.mod_pow2_bits_low by lia. rewrite N.lor_spec. 
+      change (N.testbit 128 7) with true. apply orb_true_r. }
+    destruct (N.lt_ge_cases (N.lor s0 128 mod 256) 128) as [Hlt|Hge]; [|exact Hge].
+    exfalso. assert (Hz : N.testbit (N.lor s0 128 mod 256) 7 = false).
+    { destruct (N.eq_dec (N.lor s0 128 mod 256) 0) as [->|Hnz]; [reflexivity|].
+      apply N.bits_above_log2. apply N.log2_lt_pow2; [lia|]. change (2 ^ 7)%N with 128%N. exact Hlt. }
+    congruence. }
+  lia.
+Qed.
+
+Lemma tp_wrap_roundtrip p p' q salt x a : same_header p p' -> auth q = auth p -> length salt = 2 ->
+  tp_wrap Hs p salt x = Ok a ->
+  tunnel_password Hs a (secret p') (auth q) = Ok (x, forced_salt salt).
+Proof.
+  intros (_ & _ & _ & Hsec) Hq Hsalt H. unfold tp_wrap in H. rewrite Hsec, Hq.
+  pose proof H as H0. rewrite (new_tunnel_password_eq_spec Hs Hs_len) in H0. unfold spec_new_tunnel_password in H0.
+  destruct ((tp_max_password <? length x) || negb (salt_ok (forced_salt salt)) || (length (secret p) =? 0)
+            || negb (length (auth p) =? 16)) eqn:E; [discriminate|].
+  assert (Hne : secret p <> []) by (intros Hn; rewrite Hn in E; cbn [length] in E; lia).
+  destruct (tunnel_password_roundtrip Hs Hs_len x (forced_salt salt) (secret p) (auth p)) as (a' & Ha' & Hd);
+    [lia|apply forced_salt_ok, Hsalt|exact Hne|lia|].
+  rewrite Ha' in H. apply Ok_inj in H. subst a'. exact Hd.
+Qed.
+
+Lemma up_roundtrip p p' x a : same_header p p' -> ~ In 0%N x ->
+  new_user_password Hs x (secret p) (auth p) = Ok a ->
+  user_password Hs a (secret p') (auth p') = Ok x.
+Proof.
+  intros (_ & _ & Hau & Hsec) Hn H. rewrite Hsec, Hau.
+  pose proof H as H0. rewrite (new_user_password_eq_spec Hs Hs_len) in H0. unfold spec_new_user_password in H0.
+  destruct ((128 <? length x) || (length (secret p) =? 0) || negb (length (auth p) =? 16)) eqn:E; [discriminate|].
+  assert (Hne : secret p <> []) by (intros Hn'; rewrite Hn' in E; cbn [length] in E; lia).
+  destruct (user_password_roundtrip Hs Hs_len x (secret p) (auth p)) as (c & Hc & Hd); [lia|exact Hne|lia|].
+  rewrite Hc in H. apply Ok_inj in H. subst c. rewrite Hd, take_until_nul_id by exact Hn. reflexivity.
+Qed.
+
+(* octets / string, with or without tag, size, User-Password or Tunnel-Password hiding *)
+Lemma dec_enc_bytes d p p' q salt tag v a :
+  h_kind d = KBytes -> same_header p p' -> auth q = auth p -> length salt = 2 ->
+  (h_tag d = true -> (tag <= 31)%N) ->
+  (h_enc d = 1%Z -> ~ In 0%N (g_b v)) ->
+  h_encode Hs d p salt tag v = Ok a ->
+  h_decode Hs d p' q a = Ok ((if h_tag d then tag else 0%N), gv_b (g_b v)).
+Proof.
+  intros Hk Hh Hq Hsalt Htag Hnul He. unfold h_encode in He. unfold h_decode. rewrite Hk in *.
+  set (size_ok := match h_size d with Some n => (zlen (g_b v) =? n)%Z | None => true end) in *.
+  destruct size_ok eqn:Es; cbn [negb] in He; [|discriminate].
+  (* the hidden (or plain) value *)
+  set (inner := if (h_enc d =? 1)%Z then new_user_password Hs (g_b v) (secret p) (auth p)
+                else if (h_enc d =? 2)%Z then tp_wrap Hs p salt (g_b v) else new_bytes (g_b v)) in *.
+  destruct inner as [a0|e| |] eqn:Ei; cbn [bind] in He; try discriminate.
+  assert (Hin : (if (h_enc d =? 1)%Z then user_password Hs a0 (secret p') (auth p')
+                 else if (h_enc d =? 2)%Z then bind (tunnel_password Hs a0 (secret p') (auth q)) (fun r => Ok (fst r))
+                 else Ok a0) = Ok (g_b v)).
+  { subst inner. destruct (h_enc d =? 1)%Z eqn:E1.
+    - apply (up_roundtrip p p' (g_b v) a0 Hh); [apply Hnul; lia|exact Ei].
+    - destruct (h_enc d =? 2)%Z eqn:E2.
+      + rewrite (tp_wrap_roundtrip p p' q salt (g_b v) a0 Hh Hq Hsalt Ei). reflexivity.
+      + unfold new_bytes in Ei. destruct (holds _ _); [discriminate|]. apply Ok_inj in Ei. subst a0. reflexivity. }
+  assert (Hsz : match h_size d with
+                | Some n => if negb (zlen (g_b v) =? n)%Z then Err E_invalid else Ok ((if h_tag d then tag else 0%N), gv_b (g_b v))
+                | None => Ok ((if h_tag d then tag else 0%N), gv_b (g_b v))
+                end = Ok ((if h_tag d then tag else 0%N), gv_b (g_b v))).
+  { subst size_ok. destruct (h_size d); [rewrite Es|]; reflexivity. }
+  destruct (h_tag d) eqn:Et; cbn [andb] in *.
+  - specialize (Htag eq_refl). destruct (tag <=? 31)%N eqn:E31; [|lia].
+    destruct (252 <? length a0); [discriminate|]. apply Ok_inj in He. subst a. rewrite E31.
+    rewrite Hin. cbn [bind]. exact Hsz.
+  - apply Ok_inj in He. subst a. destruct a0 as [|t r]; rewrite Hin; cbn [bind]; exact Hsz.
+Qed.
+
+Lemma dec_enc_ip4 d p p' q salt tag v a :
+  h_kind d = KIP4 -> same_header p p' -> auth q = auth p -> length salt = 2 ->
+  h_encode Hs d p salt tag v = Ok a ->
+  exists x, h_decode Hs d p' q a = Ok (0%N, gv_b x) /\ ip_equal (g_b v) x /\ length x = 4.
+Proof.
+  intros Hk Hh Hq Hsalt He. unfold h_encode in He. unfold h_decode. rewrite Hk in *.
+  rewrite new_ipaddr_eq in He. destruct (spec_new_ipaddr (g_b v)) as [x|e| |] eqn:Ex; cbn [bind] in He; try discriminate.
+  destruct (ipaddr_roundtrip _ _ Ex) as (Hf & Heq & Hl). exists x.
+  assert (Hd : bind (ipaddr x) (fun v0 => Ok (0%N, gv_b v0)) = Ok (0%N, gv_b x)) by (rewrite ipaddr_eq, Hf; reflexivity).
+  destruct (h_enc d =? 2)%Z.
+  - rewrite (tp_wrap_roundtrip p p' q salt x a Hh Hq Hsalt He). cbn [bind fst]. auto.
+  - apply Ok_inj in He. subst a. cbn [bind]. auto.
+Qed.
+
+Lemma dec_enc_ip6 d p p' q salt tag v a :
+  h_kind d = KIP6 -> same_header p p' -> auth q = auth p -> length salt = 2 ->
+  h_encode Hs d p salt tag v = Ok a ->
+  exists x, h_decode Hs d p' q a = Ok (0%N, gv_b x) /\ ip_equal (g_b v) x /\ length x = 16.
+Proof.
+  intros Hk Hh Hq Hsalt He. unfold h_encode in He. unfold h_decode. rewrite Hk in *.
+  rewrite new_ipv6addr_eq in He. destruct (spec_new_ipv6addr (g_b v)) as [x|e| |] eqn:Ex; cbn [bind] in He; try discriminate.
+  destruct (ipv6addr_roundtrip _ _ Ex) as (Hf & Heq & Hl). exists x.
+  assert (Hd : bind (ipv6addr x) (fun v0 => Ok (0%N, gv_b v0)) = Ok (0%N, gv_b x)) by (rewrite ipv6addr_eq, Hf; reflexivity).
+  destruct (h_enc d =? 2)%Z.
+  - rewrite (tp_wrap_roundtrip p p' q salt x a Hh Hq Hsalt He). cbn [bind fst]. auto.
+  - apply Ok_inj in He. subst a. cbn [bind]. auto.
+Qed.
+
+Lemma dec_enc_ifid d p p' q salt tag v a :
+  h_kind d = KIFID -> h_encode Hs d p salt tag v = Ok a ->
+  h_decode Hs d p' q a = Ok (0%N, gv_b (g_b v)) /\ length (g_b v) = 8.
+Proof.
+  intros Hk He. unfold h_encode in He. unfold h_decode. rewrite Hk in *.
+  rewrite new_ifid_eq in He. unfold spec_fixed in He. destruct (length (g_b v) =? 8) eqn:E; [|discriminate].
+  apply Ok_inj in He. subst a. rewrite ifid_eq. unfold spec_fixed. rewrite E. cbn [bind]. split; [reflexivity|lia].
+Qed.
+
+Lemma dec_enc_prefix d p p' q salt tag v a :
+  h_kind d = KPrefix -> bytes_ok (g_b v) -> bytes_ok (g_mask v) ->
+  h_encode Hs d p salt tag v = Ok a ->
+  exists ones, spec_mask_ones (g_mask v) = Some ones /\
+    h_decode Hs d p' q a = Ok (0%N, mkgv (apply_mask (g_b v) ones) 0 (mask_of ones 16)).
+Proof.
+  intros Hk Hb Hm He. unfold h_encode in He. unfold h_decode. rewrite Hk in *.
+  rewrite (new_ipv6prefix_eq _ _ Hm) in He.
+  destruct (ipv6prefix_roundtrip _ _ _ Hb He) as (ones & Ho & Hli & Hlm & Hla & Hla' & Hd).
+  exists ones. split; [exact Ho|].
+  assert (Hok : bytes_ok a).
+  { unfold spec_new_ipv6prefix in He. rewrite Ho in He. destruct (negb (length (g_b v) =? 16) || negb (length (g_mask v) =? 16)); [discriminate|].
+    apply Ok_inj in He. subst a. constructor; [unfold byte_ok; lia|]. constructor.
+    - pose proof (mask_ones_bound (g_mask v) ones) as Hbd. rewrite (mask_ones_eq _ Hm) in Hbd. specialize (Hbd Ho).
+      unfold byte_ok. lia.
+    - apply bytes_ok_firstn, apply_mask_ok, Hb. }
+  rewrite (ipv6prefix_eq a Hok), Hd. reflexivity.
+Qed.
+
+Lemma dec_enc_date d p p' q salt tag v a :
+  h_kind d = KDate -> h_encode Hs d p salt tag v = Ok a ->
+  h_decode Hs d p' q a = Ok (0%N, gv_u (g_u v)) /\ (0 <= g_u v <= 4294967295)%Z.
+Proof.
+  intros Hk He. unfold h_encode in He. unfold h_decode. rewrite Hk in *.
+  rewrite new_date_eq in He. rewrite date_eq.
+  destruct (Z_le_dec 0 (g_u v)) as [H0|H0]; [destruct (Z_le_dec (g_u v) 4294967295) as [H1|H1]|].
+  - destruct (date_roundtrip (g_u v) (conj H0 H1)) as (a' & Ha' & Hd & _). rewrite Ha' in He. apply Ok_inj in He. subst a'.
+    rewrite Hd. cbn [bind]. auto.
+  - destruct (proj1 (date_refuses (g_u v))) as [e Hr]; [lia|]. rewrite Hr in He. discriminate.
+  - destruct (proj1 (date_refuses (g_u v))) as [e Hr]; [lia|]. rewrite Hr in He. discriminate.
+Qed.
+
+Lemma dec_enc_byte d p p' q salt tag v a :
+  h_kind d = KByte -> (0 <= g_u v)%Z -> h_encode Hs d p salt tag v = Ok a ->
+  h_decode Hs d p' q a = Ok (0%N, gv_u (g_u v)).
+Proof.
+  intros Hk H0 He. unfold h_encode in He. unfold h_decode. rewrite Hk in *. apply Ok_inj in He. subst a.
+  rewrite Z2N.id by exact H0. reflexivity.
+Qed.
+
+(* integers: plain, salt-encrypted, or tagged (32-bit, value in the low 24 bits) *)
+Lemma dec_enc_int d p p' q salt tag v a n :
+  h_kind d = KInt n -> same_header p p' -> auth q = auth p -> length salt = 2 ->
+  (h_tag d = true -> n = 4 /\ (tag <= 31)%N) ->
+  (0 <= g_u v)%Z -> (Z.to_N (g_u v) < 256 ^ N.of_nat n)%N ->
+  h_encode Hs d p salt tag v = Ok a ->
+  h_decode Hs d p' q a = Ok ((if h_tag d then tag else 0%N), gv_u (g_u v)).
+Proof.
+  intros Hk Hh Hq Hsalt Htag H0 Hr He. unfold h_encode in He. unfold h_decode. rewrite Hk in *.
+  assert (Hv : Z.of_N (be_dec (be_enc n (Z.to_N (g_u v)))) = g_u v) by (rewrite be_dec_enc_small by exact Hr; lia).
+  destruct (h_tag d) eqn:Et; cbn [andb negb] in *.
+  - destruct (Htag eq_refl) as [-> H31]. destruct (g_u v >? 16777215)%Z eqn:Eg; [discriminate|].
+    apply Ok_inj in He. subst a.
+    assert (Hs' : ((if (1 <=? tag)%N && (tag <=? 31)%N then tag else 0%N) = tag)).
+    { destruct ((1 <=? tag)%N && (tag <=? 31)%N) eqn:E; [reflexivity|lia]. }
+    rewrite Hs'. destruct (tag <=? 31)%N eqn:E31; [|lia].
+    rewrite be_enc4_small by lia. cbn [bind]. rewrite be_enc_length. cbn [Nat.eqb negb]. rewrite Hv. reflexivity.
+  - destruct (h_enc d =? 2)%Z.
+    + destruct a as [|t r].
+      * exfalso. pose proof (tp_wrap_roundtrip p p' q salt _ [] Hh Hq Hsalt He) as Hd.
+        rewrite (tunnel_password_eq_spec Hs Hs_len) in Hd. unfold spec_tunnel_password in Hd. cbn in Hd. discriminate.
+      * rewrite (tp_wrap_roundtrip p p' q salt _ _ Hh Hq Hsalt He). cbn [bind fst].
+        rewrite be_enc_length, Nat.eqb_refl. cbn [negb]. rewrite Hv. reflexivity.
+    + apply Ok_inj in He. subst a.
+      rewrite match_same. cbn [bind]. rewrite be_enc_length, Nat.eqb_refl. cbn [negb]. rewrite Hv. reflexivity.
+Qed.
+End Codec.
+
+(* ---- the laws ---- *)
+(* the value Lookup must give back after Set(tag, v) *)
+Definition reads_back (d : hdesc) (tag : N) (v : gv) (tv : N * gv) : Prop :=
+  fst tv = (if h_tag d then tag else 0%N) /\
+  match h_kind d with
+  | KBytes | KConcat | KIFID => g_b (snd tv) = g_b v
+  | KIP4 | KIP6 => ip_equal (g_b v) (g_b (snd tv))
+  | KPrefix => exists ones, spec_mask_ones (g_mask v) = Some ones /\
+                            g_b (snd tv) = apply_mask (g_b v) ones /\ g_mask (snd tv) = mask_of ones 16
+  | KDate | KInt _ | KByte => g_u (snd tv) = g_u v
+  end.
+
+(* the calls the laws speak about: the value lies in the Go type of the parameter
+   (unsigned integer of the attribute's width, bytes below 256), tags are RFC 2868
+   tags (0..31; see tag_above_31_refuted), only the kinds the generator tags are
+   tagged, a User-Password style value holds no NUL (it is NUL-padded on the wire),
+   and a concat value is not empty (see concat_empty_refuted) *)
+Definition admissible (d : hdesc) (tag : N) (v : gv) : Prop :=
+  (h_tag d = true -> (tag <= 31)%N /\ (h_kind d = KBytes \/ h_kind d = KInt 4)) /\
+  match h_kind d with
+  | KBytes => h_enc d = 1%Z -> ~ In 0%N (g_b v)
+  | KConcat => g_b v <> []
+  | KPrefix => bytes_ok (g_b v) /\ bytes_ok (g_mask v)
+  | KInt n => (0 <= g_u v)%Z /\ (Z.to_N (g_u v) < 256 ^ N.of_nat n)%N
+  | KByte => (0 <= g_u v)%Z
+  | _ => True
+  end.
+
+Section Laws.
+Variable Hs : bytes -> bytes.
+Hypothesis Hs_len : forall x, length (Hs x) = 16.
+
+Theorem decode_encode d p p' q salt tag v a :
+  is_concat d = false -> admissible d tag v -> same_header p p' -> auth q = auth p -> length salt = 2 ->
+  h_encode Hs d p salt tag v = Ok a ->
+  exists tv, h_decode Hs d p' q a = Ok tv /\ reads_back d tag v tv.
+Proof.
+  intros Hc [Ht Hv] Hh Hq Hsalt He. unfold reads_back.
+  assert (Hnt : forall k, h_kind d = k -> k <> KBytes -> (forall n, k <> KInt n) -> (if h_tag d then tag else 0%N) = 0%N).
+  { intros k Hk H1 H2. destruct (h_tag d); [|reflexivity]. destruct (Ht eq_refl) as [_ [E|E]]; rewrite E in Hk; subst k.
+    - congruence. - destruct (H2 4 eq_refl). }
+  unfold is_concat in Hc. destruct (h_kind d) as [| | | | | | |n|] eqn:Hk; try discriminate.
+  - eexists. split; [eapply dec_enc_bytes; eauto; intros Htg; apply Ht, Htg|]. cbn [fst snd g_b gv_b]. auto.
+  - destruct (dec_enc_ip4 Hs Hs_len d p p' q salt tag v a Hk Hh Hq Hsalt He) as (x & Hd & Heq & _).
+    eexists. split; [exact Hd|]. cbn [fst snd g_b gv_b]. split; [symmetry; eapply Hnt; eauto; congruence|exact Heq].
+  - destruct (dec_enc_ip6 Hs Hs_len d p p' q salt tag v a Hk Hh Hq Hsalt He) as (x & Hd & Heq & _).
+    eexists. split; [exact Hd|]. cbn [fst snd g_b gv_b]. split; [symmetry; eapply Hnt; eauto; congruence|exact Heq].
+  - destruct (dec_enc_ifid Hs Hs_len d p p' q salt tag v a Hk He) as (Hd & _).
+    eexists. split; [exact Hd|]. cbn [fst snd g_b gv_b]. split; [symmetry; eapply Hnt; eauto; congruence|reflexivity].
+  - destruct Hv as [Hb Hm]. destruct (dec_enc_prefix Hs Hs_len d p p' q salt tag v a Hk Hb Hm He) as (ones & Ho & Hd).
+    eexists. split; [exact Hd|]. cbn [fst snd g_b g_mask]. split; [symmetry; eapply Hnt; eauto; congruence|eauto].
+  - destruct (dec_enc_date Hs Hs_len d p p' q salt tag v a Hk He) as (Hd & _).
+    eexists. split; [exact Hd|]. cbn [fst snd g_u gv_u]. split; [symmetry; eapply Hnt; eauto; congruence|reflexivity].
+  - destruct Hv as [H0 Hr]. eexists. split.
+    + eapply dec_enc_int; eauto. intros Htg. destruct (Ht Htg) as [H31 [E|E]]; [congruence|]. inversion E. auto.
+    + cbn [fst snd g_u gv_u]. auto.
+  - eexists. split; [eapply dec_enc_byte; eauto|]. cbn [fst snd g_u gv_u]. split; [symmetry; eapply Hnt; eauto; congruence|reflexivity].
+Qed.
+
+Lemma h_lookup_single d p q a : is_concat d = false -> h_raw d p = [a] -> h_lookup Hs d p q = h_decode Hs d p q a.
+Proof. unfold is_concat, h_lookup. intros Hc ->. destruct (h_kind d); try discriminate; reflexivity. Qed.
+Lemma h_gets_single d p q a : h_raw d p = [a] ->
+  h_gets Hs d p q = bind (h_decode Hs d p q a) (fun x => Ok [x]).
+Proof. unfold h_gets. intros ->. cbn [decode_all]. destruct (h_decode Hs d p q a); reflexivity. Qed.
+
+(* after a successful Set, Lookup returns the value with its tag and Gets returns exactly that one *)
+Theorem set_lookup d p p' q salt tag v :
+  wfd d -> is_concat d = false -> admissible d tag v -> auth q = auth p -> length salt = 2 ->
+  h_set Hs d p salt tag v = Ok p' ->
+  exists tv, h_lookup Hs d p' q = Ok tv /\ h_gets Hs d p' q = Ok [tv] /\ reads_back d tag v tv.
+Proof.
+  intros Hw Hc Ha Hq Hsalt H. destruct (h_set_inv Hs d p salt tag v p' H) as (a & He & Hst & Hh).
+  pose proof (stored_set_raw d a _ _ Hw Hst) as Hr. rewrite Hc in Hr. rewrite <- h_raw_eq in Hr.
+  destruct (decode_encode d p p' q salt tag v a Hc Ha Hh Hq Hsalt He) as (tv & Hd & Hrb).
+  exists tv. rewrite (h_lookup_single d p' q a Hc Hr), (h_gets_single d p' q a Hr), Hd. auto.
+Qed.
+
+(* concat attributes: the value is cut into 253-byte attributes and read back whole *)
+Theorem set_lookup_concat d p p' q salt tag v :
+  wfd d -> is_concat d = true -> g_b v <> [] ->
+  h_set Hs d p salt tag v = Ok p' ->
+  h_lookup Hs d p' q = Ok (0%N, gv_b (g_b v)) /\ Forall (fun c => 1 <= length c <= 253) (h_raw d p').
+Proof.
+  intros Hw Hc Hne H. destruct (h_set_inv Hs d p salt tag v p' H) as (a & He & Hst & Hh).
+  pose proof (stored_set_raw d a _ _ Hw Hst) as Hr. rewrite Hc in Hr. rewrite <- h_raw_eq in Hr.
+  assert (Ea : a = g_b v).
+  { unfold h_encode in He. unfold is_concat in Hc. destruct (h_kind d); try discriminate. apply Ok_inj in He. auto. }
+  subst a. split.
+  - unfold h_lookup. unfold is_concat in Hc. destruct (h_kind d); try discriminate. rewrite Hr.
+    destruct (chunks (S (length (g_b v))) (g_b v)) as [|c cs] eqn:Ech.
+    + destruct (g_b v); [congruence|discriminate].
+    + rewrite <- Ech, concat_chunks by lia. reflexivity.
+  - rewrite Hr. apply Forall_forall. intros c Hin. eapply chunks_bounds, Hin.
+Qed.
+
+(* Add appends: Gets returns what it returned before, then the new value *)
+Theorem add_gets d p p' q salt tag v xs :
+  wfd d -> is_concat d = false -> admissible d tag v -> auth q = auth p -> length salt = 2 ->
+  h_add Hs d p salt tag v = Ok p' -> decode_all Hs d p' q (h_raw d p) = Ok xs ->
+  exists tv, h_gets Hs d p' q = Ok (xs ++ [tv]) /\ reads_back d tag v tv.
+Proof.
+  intros Hw Hc Ha Hq Hsalt H Hxs. destruct (h_add_inv Hs d p salt tag v p' H) as (a & He & Hst & Hh).
+  pose proof (stored_add_raw d a _ _ Hw Hst) as Hr. rewrite <- !h_raw_eq in Hr.
+  destruct (decode_encode d p p' q salt tag v a Hc Ha Hh Hq Hsalt He) as (tv & Hd & Hrb).
+  exists tv. split; [|exact Hrb]. unfold h_gets. rewrite Hr. clear Hr.
+  revert xs Hxs. induction (h_raw d p) as [|x l IH]; intros xs Hxs.
+  - cbn [decode_all] in Hxs. apply Ok_inj in Hxs. subst xs. cbn [app decode_all]. rewrite Hd. reflexivity.
+  - cbn [app decode_all] in *. destruct (h_decode Hs d p' q x) as [y|e| |]; cbn [bind] in *; try discriminate.
+    destruct (decode_all Hs d p' q l) as [ys|e| |]; cbn [bind] in *; try discriminate.
+    apply Ok_inj in Hxs. subst xs. rewrite (IH ys eq_refl). reflexivity.
+Qed.
+
+(* Del removes every occurrence: Lookup reports ErrNoAttribute, Gets returns nothing *)
+Theorem del_lookup d p q : exists p', h_del d p = Ok p' /\ h_lookup Hs d p' q = Err E_noattr /\ h_gets Hs d p' q = Ok [].
+Proof.
+  destruct (h_del_inv d p) as (p' & Hd & Hl & _). exists p'. split; [exact Hd|].
+  assert (Hr : h_raw d p' = []) by (rewrite h_raw_eq, Hl; apply stored_del_raw).
+  unfold h_lookup, h_gets. rewrite Hr. split; [destruct (h_kind d); reflexivity|reflexivity].
+Qed.
+
+(* an operation on one attribute never alters what another helper reads *)
+Lemma reads_depend_on_raw d p p' q : same_header p p' -> h_raw d p' = h_raw d p ->
+  h_lookup Hs d p' q = h_lookup Hs d p q /\ h_gets Hs d p' q = h_gets Hs d p q.
+Proof.
+  intros (_ & _ & Hau & Hsec) Hr. unfold h_lookup, h_gets. rewrite Hr.
+  assert (Hd : forall a, h_decode Hs d p' q a = h_decode Hs d p q a).
+  { intros a. unfold h_decode. rewrite Hau, Hsec. reflexivity. }
+  split.
+  - destruct (h_kind d); destruct (h_raw d p); try reflexivity; apply Hd.
+  - clear Hr. induction (h_raw d p) as [|x l IH]; [reflexivity|]. cbn [decode_all]. rewrite Hd, IH. reflexivity.
+Qed.
+
+Theorem set_non_interference d d' p p' q salt tag v : wfd d -> distinct d d' ->
+  h_set Hs d p salt tag v = Ok p' ->
+  h_lookup Hs d' p' q = h_lookup Hs d' p q /\ h_gets Hs d' p' q = h_gets Hs d' p q.
+Proof.
+  intros Hw Hd H. destruct (h_set_inv Hs d p salt tag v p' H) as (a & _ & Hst & Hh).
+  apply reads_depend_on_raw; [exact Hh|]. rewrite !h_raw_eq. eapply stored_set_other; eauto.
+Qed.
+Theorem add_non_interference d d' p p' q salt tag v : wfd d -> distinct d d' ->
+  h_add Hs d p salt tag v = Ok p' ->
+  h_lookup Hs d' p' q = h_lookup Hs d' p q /\ h_gets Hs d' p' q = h_gets Hs d' p q.
+Proof.
+  intros Hw Hd H. destruct (h_add_inv Hs d p salt tag v p' H) as (a & _ & Hst & Hh).
+  apply reads_depend_on_raw; [exact Hh|]. rewrite !h_raw_eq. eapply stored_add_other; eauto.
+Qed.
+Theorem del_non_interference d d' p q : distinct d d' ->
+  exists p', h_del d p = Ok p' /\ h_lookup Hs d' p' q = h_lookup Hs d' p q /\ h_gets Hs d' p' q = h_gets Hs d' p q.
+Proof.
+  intros Hd. destruct (h_del_inv d p) as (p' & Hdel & Hl & Hh). exists p'. split; [exact Hdel|].
+  apply reads_depend_on_raw; [exact Hh|]. rewrite !h_raw_eq, Hl. apply stored_del_other, Hd.
+Qed.
+End Laws.
+
+(* ---- values survive MarshalBinary -> Parse ---- *)
+Definition on_wire (d : hdesc) : Prop :=
+  match h_vendor d with Some _ => True | None => (0 <= h_type d <= 255)%Z end.
+
+Lemma filter_key_in_range k l : (0 <= k <= 255)%Z -> filter (is_key k) (filter in_range l) = filter (is_key k) l.
+Proof.
+  intros Hk. induction l as [|a l IH]; [reflexivity|]. cbn [filter]. unfold in_range at 1, is_key at 2.
+  destruct (atype a =? k)%Z eqn:E.
+  - replace ((0 <=? atype a)%Z && (atype a <=? 255)%Z) with true by lia. cbn [filter]. unfold is_key at 1. rewrite E, IH. reflexivity.
+  - destruct ((0 <=? atype a)%Z && (atype a <=? 255)%Z); [cbn [filter]; unfold is_key at 1; rewrite E|]; exact IH.
+Qed.
+
+Lemma raw_of_wire d l : on_wire d -> raw_of d (filter in_range l) = raw_of d l.
+Proof.
+  unfold on_wire, raw_of. destruct (h_vendor d) as [vid|]; intros Hd.
+  - apply gets_vendor_same_vsa. apply filter_key_in_range. unfold VSA_TYPE. lia.
+  - unfold vals. rewrite filter_key_in_range by exact Hd. reflexivity.
+Qed.
+
+Section Wire.
+Variable Hs : bytes -> bytes.
+Theorem wire_survives d p q w : on_wire d -> (0 <= code p <= 255)%Z -> length (auth p) = 16 -> marshal p = Ok w ->
+  exists p', parse w (secret p) = Ok p' /\
+    h_lookup Hs d p' q = h_lookup Hs d p q /\ h_gets Hs d p' q = h_gets Hs d p q.
+Proof.
+  intros Hd Hc Ha Hm. exists (wire_view p (secret p)). split; [apply marshal_parse; assumption|].
+  apply reads_depend_on_raw.
+  - unfold same_header, wire_view. cbn [code ident auth secret]. auto.
+  - rewrite !h_raw_eq. unfold wire_view. cbn [pattrs]. apply raw_of_wire, Hd.
+Qed.
+End Wire.
+
+(* ---- setters refuse what the attribute cannot carry ---- *)
+Section Refuse.
+Variable Hs : bytes -> bytes.
+
+(* a refused value never reaches the packet: Set and Add fail exactly when the encoder does,
+   or when a vendor attribute cannot hold the encoded value (empty, or more than 247 bytes) *)
+Theorem set_fails_iff d p salt tag v : is_concat d = false ->
+  (exists e, h_set Hs d p salt tag v = Err e) <->
+  (exists e, h_encode Hs d p salt tag v = Err e) \/
+  (exists a vid, h_encode Hs d p salt tag v = Ok a /\ h_vendor d = Some vid /\ (length a = 0 \/ 247 < length a)).
+Proof.
+  intros Hc. unfold h_set. destruct (h_encode Hs d p salt tag v) as [a|e| |]; cbn [bind].
+  - unfold is_concat in Hc. destruct (h_vendor d) as [vid|] eqn:Ev.
+    + assert (Hs' : (match h_kind d with
+                     | KConcat => bind (del (h_type d) (pattrs p)) (fun l => Ok (mkpacket (code p) (ident p) (auth p) (secret p) (l ++ map (fun c => mkavp (h_type d) c) (chunks (S (length a)) a))))
+                     | _ => bind (set_vendor vid (Z.to_N (h_type d)) a (pattrs p)) (fun l => Ok (mkpacket (code p) (ident p) (auth p) (secret p) l))
+                     end) = bind (set_vendor vid (Z.to_N (h_type d)) a (pattrs p)) (fun l => Ok (mkpacket (code p) (ident p) (auth p) (secret p) l))).
+      { destruct (h_kind d); try discriminate; reflexivity. }
+      rewrite Hs', set_vendor_ok. destruct ((1 <=? length a) && (length a <=? 247)) eqn:E; cbn [bind]; split.
+      * intros [e He]. discriminate.
+      * intros [[e He]|(a' & vid' & Ha & _ & Hl)]; [discriminate|]. apply Ok_inj in Ha. subst a'. lia.
+      * intros _. right. exists a, vid. split; [reflexivity|]. split; [reflexivity|]. lia.
+      * eauto.
+    + rewrite set_spec. split.
+      * intros [e He]. destruct (h_kind d); discriminate.
+      * intros [[e He]|(a' & vid' & _ & Hv & _)]; discriminate.
+  - split; eauto.
+  - split; [intros [e' He]; discriminate|intros [[e' He]|(a' & vid' & Ha & _)]; discriminate].
+  - split; [intros [e' He]; discriminate|intros [[e' He]|(a' & vid' & Ha & _)]; discriminate].
+Qed.
+
+(* what the encoders refuse, kind by kind *)
+Theorem refuses_wrong_size d p salt tag v n : h_kind d = KBytes -> h_size d = Some n -> zlen (g_b v) <> n ->
+  h_encode Hs d p salt tag v = Err E_invalid.
+Proof.
+  intros Hk Hsz Hl. unfold h_encode. rewrite Hk, Hsz. destruct (zlen (g_b v) =? n)%Z eqn:E; [lia|reflexivity].
+Qed.
+Theorem refuses_oversize d p salt tag v : h_kind d = KBytes -> h_enc d = 0%Z ->
+  (253 < length (g_b v) \/ (h_tag d = true /\ (tag <= 31)%N /\ 252 < length (g_b v))) ->
+  exists e, h_encode Hs d p salt tag v = Err e.
+Proof.
+  intros Hk He Hl. unfold h_encode. rewrite Hk, He. change (0 =? 1)%Z with false. change (0 =? 2)%Z with false. cbv iota.
+  destruct (negb match h_size d with Some n => (zlen (g_b v) =? n)%Z | None => true end); [eauto|].
+  rewrite new_bytes_eq. unfold spec_new_octets. destruct (length (g_b v) <=? 253) eqn:E; cbn [bind]; [|eauto].
+  destruct Hl as [Hl|(Ht & H31 & Hl)]; [lia|]. rewrite Ht. cbn [andb].
+  destruct (tag <=? 31)%N eqn:E31; [|lia]. destruct (252 <? length (g_b v)) eqn:E2; [eauto|lia].
+Qed.
+Theorem refuses_wrong_family4 d p salt tag v : h_kind d = KIP4 -> is_v4 (g_b v) = false ->
+  exists e, h_encode Hs d p salt tag v = Err e.
+Proof.
+  intros Hk Hv. unfold h_encode. rewrite Hk, new_ipaddr_eq.
+  destruct (proj1 (ipaddr_refuses (g_b v)) Hv) as [e He]. rewrite He. cbn [bind]. eauto.
+Qed.
+Theorem refuses_wrong_family6 d p salt tag v : h_kind d = KIP6 -> length (g_b v) <> 4 -> length (g_b v) <> 16 ->
+  exists e, h_encode Hs d p salt tag v = Err e.
+Proof.
+  intros Hk H4 H16. unfold h_encode. rewrite Hk, new_ipv6addr_eq.
+  destruct (proj1 (ipv6addr_refuses (g_b v)) (conj H4 H16)) as [e He]. rewrite He. cbn [bind]. eauto.
+Qed.
+Theorem refuses_wrong_ifid d p salt tag v : h_kind d = KIFID -> length (g_b v) <> 8 ->
+  exists e, h_encode Hs d p salt tag v = Err e.
+Proof.
+  intros Hk Hl. unfold h_encode. rewrite Hk, new_ifid_eq. unfold spec_fixed.
+  destruct (length (g_b v) =? 8) eqn:E; [lia|eauto].
+Qed.
+Theorem refuses_time_out_of_range d p salt tag v : h_kind d = KDate -> (g_u v < 0 \/ 4294967295 < g_u v)%Z ->
+  exists e, h_encode Hs d p salt tag v = Err e.
+Proof.
+  intros Hk Hu. unfold h_encode. rewrite Hk, new_date_eq. apply date_refuses, Hu.
+Qed.
+Theorem refuses_tagged_int_above_24_bits d p salt tag v n : h_kind d = KInt n -> h_tag d = true ->
+  (16777215 < g_u v)%Z -> h_encode Hs d p salt tag v = Err E_invalid.
+Proof.
+  intros Hk Ht Hu. unfold h_encode. rewrite Hk, Ht. destruct (g_u v >? 16777215)%Z eqn:E; [reflexivity|lia].
+Qed.
+End Refuse.
+
+(* ---- encrypted attributes are stored obfuscated: what sits in the packet is the
+   RFC 2865 5.2 / RFC 2868 3.5 hiding of the value, never the value ---- *)
+Section Hidden.
+Variable Hs : bytes -> bytes.
+Hypothesis Hs_len : forall x, length (Hs x) = 16.
+
+Theorem stored_user_password_hidden d p p' salt tag v : wfd d ->
+  h_kind d = KBytes -> h_enc d = 1%Z -> h_tag d = false ->
+  h_set Hs d p salt tag v = Ok p' ->
+  h_raw d p' = [rfc_up_encrypt Hs (secret p) (auth p) (g_b v)].
+Proof.
+  intros Hw Hk He Ht H. destruct (h_set_inv Hs d p salt tag v p' H) as (a & Henc & Hst & _).
+  pose proof (stored_set_raw d a _ _ Hw Hst) as Hr. unfold is_concat in Hr. rewrite Hk in Hr. rewrite h_raw_eq, Hr.
+  unfold h_encode in Henc. rewrite Hk, He, Ht in Henc. change (1 =? 1)%Z with true in Henc. cbn [andb] in Henc. cbv iota in Henc.
+  destruct (negb match h_size d with Some n => (zlen (g_b v) =? n)%Z | None => true end); [discriminate|].
+  rewrite (new_user_password_eq_spec Hs Hs_len) in Henc. unfold spec_new_user_password in Henc.
+  destruct ((128 <? length (g_b v)) || (length (secret p) =? 0) || negb (length (auth p) =? 16)); [discriminate|].
+  cbn [bind] in Henc. apply Ok_inj in Henc. subst a. reflexivity.
+Qed.
+
+Theorem stored_tunnel_password_hidden d p p' salt tag v : wfd d ->
+  h_kind d = KBytes -> h_enc d = 2%Z ->
+  h_set Hs d p salt tag v = Ok p' ->
+  exists c, h_raw d p' = [if h_tag d && (tag <=? 31)%N then tag :: c else c] /\
+            c = rfc_tp_encrypt Hs (secret p) (auth p) (forced_salt salt) (g_b v).
+Proof.
+  intros Hw Hk He H. destruct (h_set_inv Hs d p salt tag v p' H) as (a & Henc & Hst & _).
+  pose proof (stored_set_raw d a _ _ Hw Hst) as Hr. unfold is_concat in Hr. rewrite Hk in Hr. rewrite h_raw_eq, Hr.
+  unfold h_encode in Henc. rewrite Hk, He in Henc. change (2 =? 1)%Z with false in Henc. change (2 =? 2)%Z with true in Henc. cbv iota in Henc.
+  destruct (negb match h_size d with Some n => (zlen (g_b v) =? n)%Z | None => true end); [discriminate|].
+  unfold tp_wrap in Henc. rewrite (new_tunnel_password_eq_spec Hs Hs_len) in Henc. unfold spec_new_tunnel_password in Henc.
+  destruct ((tp_max_password <? length (g_b v)) || negb (salt_ok (forced_salt salt)) || (length (secret p) =? 0)
+            || negb (length (auth p) =? 16)); [discriminate|].
+  cbn [bind] in Henc. eexists. split; [|reflexivity].
+  destruct (h_tag d && (tag <=? 31)%N).
+  - destruct (252 <? length (rfc_tp_encrypt Hs (secret p) (auth p) (forced_salt salt) (g_b v))); [discriminate|].
+    apply Ok_inj in Henc. subst a. reflexivity.
+  - apply Ok_inj in Henc. subst a. reflexivity.
+Qed.
+End Hidden.
+
+(* ---- the two statements that are false of the code (kernel-checked witnesses) ---- *)
+Definition ex_tagged_str : hdesc := mkhdesc 81 KBytes true 0 None None.      (* Tunnel-Private-Group-ID *)
+Definition ex_tagged_int : hdesc := mkhdesc 64 (KInt 4) true 0 None None.    (* Tunnel-Type *)
+Definition ex_concat : hdesc := mkhdesc 79 KConcat false 0 None None.        (* EAP-Message *)
+Definition ex_p : packet := mkpacket 2 1 (repeat 0%N 16) [115]%N [].
+Definition idH (b : bytes) : bytes := repeat 0%N 16.
+
+(* F9: a tag above 0x1F is not stored; the value comes back with another tag, or cut *)
+Theorem tag_above_31_refuted :
+  (exists p', h_set idH ex_tagged_str ex_p [] 32 (gv_b [97; 98]%N) = Ok p' /\
+              h_lookup idH ex_tagged_str p' ex_p = Ok (0%N, gv_b [97; 98]%N)) /\
+  (exists p', h_set idH ex_tagged_str ex_p [] 32 (gv_b [5; 98]%N) = Ok p' /\
+              h_lookup idH ex_tagged_str p' ex_p = Ok (5%N, gv_b [98]%N)) /\
+  (exists p', h_set idH ex_tagged_int ex_p [] 32 (gv_u 7) = Ok p' /\
+              h_lookup idH ex_tagged_int p' ex_p = Ok (0%N, gv_u 7)).
+Proof. repeat split; eexists; split; reflexivity. Qed.
+
+(* F20: Set of an empty value on a concat attribute stores nothing, and Lookup reports ErrNoAttribute *)
+Theorem concat_empty_refuted :
+  exists p', h_set idH ex_concat ex_p [] 0 (gv_b []) = Ok p' /\ h_lookup idH ex_concat p' ex_p = Err E_noattr.
+Proof. eexists; split; reflexivity. Qed.
+
+(* non-vacuity of the laws: an admissible tagged call on a packet that already holds values *)
+Example law_example :
+  let p := mkpacket 2 1 (repeat 0%N 16) [115]%N [mkavp 81 [1; 120]%N; mkavp 6 [0;0;0;1]%N; mkavp 81 [121]%N] in
+  wfd ex_tagged_str /\ admissible ex_tagged_str 3 (gv_b [97; 98]%N) /\
+  exists p', h_set idH ex_tagged_str p [] 3 (gv_b [97; 98]%N) = Ok p' /\
+             pattrs p' = [mkavp 81 [3; 97; 98]%N; mkavp 6 [0;0;0;1]%N] /\
+             h_gets idH ex_tagged_str p' p = Ok [(3%N, gv_b [97; 98]%N)].
+Proof.
+  cbv zeta. split; [exact I|]. split.
+  - unfold admissible, ex_tagged_str. cbn. split; [intros _; split; [lia|auto]|discriminate].
+  - eexists. repeat split; reflexivity.
+Qed.
